@@ -22,9 +22,12 @@ a registered file, the combinators the lexer / parser glue uses (`Span::new` wit
 `assert!(end >= start)`, `from_locs`, `merge` with its `assert_eq!` on the files, `start_span`,
 `end_span`) and rendering: codespan-reporting 0.11 fails (and `write_error` then panics with
 "Internal compiler error while formatting error") exactly when a label names a file that is not
-in the database (`Span::NULL` has file `None`); it tolerates ranges that are out of bounds or not
-on character boundaries (it clamps them), which the correspondence check confirms on arbitrary
-spans.
+in the database; it tolerates ranges that are out of bounds or not on character boundaries (it
+clamps them), which the correspondence check confirms on arbitrary spans.  Labels are made by
+`Diagnostic::primary` / `secondary` only (`DiagB.addLabel`): since the repair c4ddfe9 a span
+without a file (`Span::NULL`, `file_id == None`: generated code, built-in definitions) does not
+become a label but a note, so a file-less span can no longer reach the renderer; before, it did and
+`ambiguous value for enum const` on a built-in enum panicked.
 -/
 namespace TruthModel.Diag
 
@@ -320,6 +323,27 @@ def render (fs : Files) : List Span → Outcome Unit
     | .ok () => render fs ls
     | .err c => .err c
     | .panic p => .panic p
+
+/-- a `Diagnostic` under construction: what `primary` / `secondary` / `note` have added so far -/
+structure DiagB where
+  labels : List Span
+  notes : Nat
+deriving Repr, DecidableEq, Inhabited
+
+def DiagB.empty : DiagB := ⟨[], 0⟩
+
+/-- `Diagnostic::primary(span, msg)` / `secondary(span, msg)` (c4ddfe9): a span without a file
+becomes a note, anything else a label -/
+def DiagB.addLabel (d : DiagB) (s : Span) : DiagB :=
+  match s.file with
+  | none => { d with notes := d.notes + 1 }
+  | some _ => { d with labels := d.labels ++ [s] }
+
+/-- a diagnostic labelled with these spans, in order -/
+def DiagB.ofSpans (spans : List Span) : DiagB := spans.foldl DiagB.addLabel DiagB.empty
+
+/-- `write_error` on a diagnostic built through the public API -/
+def renderDiag (fs : Files) (spans : List Span) : Outcome Unit := render fs (DiagB.ofSpans spans).labels
 
 /-- spans the parser glue can build from the lexer's token spans `toks` of file `f` -/
 inductive Built (fs : Files) (toks : List Span) : Span → Prop
